@@ -102,6 +102,12 @@ class VTime(EngineBase):
                                           rng.random() * 3])
             plan["ops"] = [{"op": "wait_procs", "timeout": timeout,
                             "cb": rng.random() < 0.7}]
+            if rng.random() < 0.4:
+                # the same objects handed in again (a supervisor loop)
+                plan["ops"].append({"op": "wait_procs", "timeout": rng.choice(
+                    [0, 0.05, 1, None if all(s["exit"] != "never" for s in
+                                             plan["procs"]) else 0.3]),
+                    "cb": True})
         for j, op in enumerate(plan["ops"]):
             op["id"] = j
         return plan
@@ -249,6 +255,24 @@ class VTime(EngineBase):
                     out = ("value", psutil.wait_procs(hs, timeout=timeout,
                                                       callback=cb))
             except BaseException as e:  # noqa: BLE001
+                from ..kernel import StepLimit
+                if isinstance(e, StepLimit):
+                    # the call is still polling after the whole seam-call
+                    # budget: with every process of the plan ending at a
+                    # finite virtual time this is a wait that never returns
+                    pend = [ends.get(s_["pid"]) for s_ in plan["procs"]]
+                    if all(x is not None for x in pend):
+                        V("C15.returns", [op["op"], "never_returns"] + (
+                            ["eintr"] if k.stats.get("fault_EINTR", 0) - f0
+                            else []) + sorted({s_["kind"]
+                                               for s_ in plan["procs"]}),
+                          op["op"], "%s(%r) was still polling after %d seam "
+                          "calls and %.1f virtual seconds; the processes "
+                          "ended at t0+%r" % (
+                              op["op"], timeout, k.nacc, k.mono - t0,
+                              [round(x - t0, 4) if x > 0 else "before"
+                               for x in pend]))
+                        break
                 if is_harness_exc(e):
                     raise
                 out = ("exc", e)
